@@ -139,6 +139,10 @@ def generated_programs(rng, tier):
         p = gprogs.gen_layout_program(rng.fork())
         p.update(module='Main', label='layout:%d' % i)
         out.append(p)
+    for i in range(10 * scale):
+        p = gprogs.gen_infer_program(rng.fork())
+        p.update(module='Main', label='infer:%d' % i)
+        out.append(p)
     return out
 
 
@@ -628,6 +632,12 @@ def monitor(ck, programs, rng, cap, tag):
         if not v0[0]:
             accepted.append((p, info['sites']))
         vs = rewrites.variants(p, p['module'], info['sites'], rng.fork(), cap, skips)
+        if p.get('renamed_apart'):
+            # supplied by the generator, which knows the binding structure it built: the same program with every local
+            # binder renamed apart. Unlike the AST-driven rename it does not depend on what the analysis under test
+            # reports about the original (a checker that wrongly sees a collision cannot hide behind "not renamable").
+            vs.append({'kind': 'rename-apart', 'site': {'kind': 'all-binders-by-construction'}, 'sources': dict(p['renamed_apart']),
+                       'entry': p['entry'], 'module': p['module']})
         for v in vs:
             v['orig'] = i
         variants += vs
@@ -689,7 +699,7 @@ def run(tier, seed, replay=None):
                       'kernel theorems: about the model of type_system.rs (TypeKernel), for all types and all relocations']
     ck.rule = ('monitor: generated programs (gen/progs.py, gen/scopes.py, layout programs; rejected ones by injecting one '
                'type/scoping error at a site of the checked AST, gen_error_program, multi-module sets of gen/hist.py)%s; '
-               'rewrites rename / rename-all / reorder-top / reorder-mem / paren / block / paren-many / annot-let / annot-lambda / '
+               'rewrites rename / rename-all / rename-apart (generator-supplied) / reorder-top / reorder-mem / paren / block / paren-many / annot-let / annot-lambda / '
                'targs / split at every applicable site, sampled down to ~30 per program and kind quota; '
                'oracle: multiset of diagnostic kinds, compile verdict, src-run behaviour; excluded by design of the language (spec '
                '6.7.1/6.7.2, 5.7; not a finding): `block` around the callee of a generic member call (`{ Opt.Som }(3)` is '
